@@ -297,7 +297,10 @@ def bilin_inv(
 
         H = (Fs - f) ** 2 + (Gs - g) ** 2
         # print t, H
-        if np.all(H < tol):
+        # Points that have converged are left alone, so that the result
+        # for one point does not depend on the other points in the arrays
+        converged = H < tol
+        if np.all(converged):
             break
 
         # Estimate Jacobi matrix
@@ -311,8 +314,8 @@ def bilin_inv(
         # incr = - np.dot(Jinv, [Fs-f, Gs-g])
         # x = x + incr[0], y = y + incr[1]
         det = Fx * Gy - Fy * Gx
-        x -= (Gy * (Fs - f) - Fy * (Gs - g)) / det
-        y -= (-Gx * (Fs - f) + Fx * (Gs - g)) / det
+        x -= np.where(converged, 0.0, (Gy * (Fs - f) - Fy * (Gs - g)) / det)
+        y -= np.where(converged, 0.0, (-Gx * (Fs - f) + Fx * (Gs - g)) / det)
         # Keep the iterate inside the grid (i + 1 and j + 1 must be valid indices)
         x = np.clip(x, 0.0, imax - 1.0001)
         y = np.clip(y, 0.0, jmax - 1.0001)
